@@ -458,10 +458,10 @@ class Parser(ExprParser):
         # destructor
         if self.have("TILDE"):
             if not self.namespace.is_class:
-                raise RuntimeError("Destructor is not in a class")
+                self.error_msg("Destructor is not in a class")
             tok = self.mustbe("ID")
             if tok.value != self.namespace.name:
-                raise RuntimeError("Expected class-name after ~")
+                self.error_msg("Expected class-name after ~")
             node.specifier.append("void")
             self.parse_template_arguments(node)
             #  class Class1 { ~Class1(); }
